@@ -93,7 +93,7 @@ def _useful_states(desc):
 
 def run(ctx):
     rng, tier = ctx["rng"], ctx["tier"]
-    n = 120 if tier == "quick" else 2500
+    n = int((120 if tier == "quick" else 2500) * ctx.get("mult", 1))
     hashseeds = [0, 1] if tier == "quick" else [0, 1, 2, 3]
     if ctx.get("replay"):
         cases = [f["case"] for f in ctx["replay"]["failing"] if "case" in f]
